@@ -41,6 +41,7 @@ type Solver struct {
 	depth     int
 	UseNRA    bool // real arithmetic present: use the nlsat tactic (z3's incremental core is weak on NRA)
 	NRAFallbacks int
+	ModelTime    time.Duration
 }
 
 func New(kind string, timeoutMs int) (*Solver, error) {
@@ -309,6 +310,8 @@ func (s *Solver) checkWith(cmd string) Result {
 // Model returns values for the given terms (after a Sat answer). Terms whose
 // value cannot be parsed are omitted.
 func (s *Solver) Model(ts []*sym.Term) sym.Model {
+	start := time.Now()
+	defer func() { s.ModelTime += time.Since(start) }()
 	m := sym.Model{}
 	if len(ts) == 0 {
 		return m
